@@ -98,7 +98,7 @@ struct OwnEngine : Engine {
             std::string o = ops[cfg.below(sizeof(ops) / sizeof(ops[0]))];
             if (o == "new") { add_new(); continue; }
             KV k; k.set("op", o).set("a", (int64_t)cfg.below(64)).set("b", (int64_t)cfg.below(64)).set("x", (int64_t)cfg.below(1000));
-            if (o == "optassign") k.set("s1", (int64_t)cfg.pick(std::vector<int>{0, 1, 7, 8, 9, 16, 40, 200})).set("s2", (int64_t)cfg.pick(std::vector<int>{0, 1, 7, 8, 9, 16, 40, 200})).set("self", cfg.chance(0.2) ? 1 : 0);
+            if (o == "optassign") k.set("s1", (int64_t)cfg.pick(std::vector<int>{0, 1, 7, 8, 9, 16, 40, 200})).set("s2", (int64_t)cfg.pick(std::vector<int>{0, 1, 7, 8, 9, 16, 40, 200})).set("self", cfg.chance(0.2) ? 1 : 0).set("move", cfg.chance(0.4) ? 1 : 0);
             if (faults && cfg.chance(0.5)) k.set("fail", (int64_t)cfg.small(1, 12));
             p.steps.push_back(k.line());
         }
@@ -203,7 +203,7 @@ struct OwnEngine : Engine {
                     SUT(o1 = new TCP::option(TCP::SACK, d1.begin(), d1.end()); o2 = new TCP::option(TCP::MSS, d2.begin(), d2.end())); bool self = k.num("self");
                     struct Del { TCP::option* a; TCP::option* b; ~Del() { ledger::Scope s; delete a; delete b; } } del = { o1, o2 };
                     ledger::fail_countdown = armed;
-                    if (self) { SUT(*o2 = *o2); st.inc("probe.option_self_assignment"); } else SUT(*o1 = *o2);
+                    if (self) { SUT(*o2 = *o2); st.inc("probe.option_self_assignment"); } else if (k.num("move", 0)) { SUT(*o1 = std::move(*o2)); st.inc("probe.option_move_assignment"); } else SUT(*o1 = *o2);
                     ledger::fail_countdown = 0;
                     TCP::option& r = self ? *o2 : *o1;
                     if (r.data_size() != s2 || (s2 && memcmp(r.data_ptr(), d2.data(), s2) != 0) || r.option() != TCP::MSS) result = Verdict::bad("own:option-assign-not-equal", fmt("option assignment (%zu <- %zu bytes%s) did not produce an equal option", s1, s2, self ? ", self" : ""), idx);
